@@ -226,8 +226,21 @@ func runSeq(run *vgen.Run, s seqCase, id int, kind string) {
 	hung := false
 	do := func(o op) bool {
 		done := make(chan result, 1)
-		go func() { done <- apply(r, o) }()
+		pan := make(chan string, 1)
+		go func() {
+			var x result
+			if p, msg := vgen.Recover(func() { x = apply(r, o) }); p {
+				pan <- msg
+				return
+			}
+			done <- x
+		}()
 		select {
+		case msg := <-pan:
+			run.Violate(id, "panic in the ring buffer: "+msg,
+				map[string]any{"cap": s.c, "full": s.full, "ops": fmt.Sprint(ops), "op": o.String()}, "panic")
+			hung = true
+			return false
 		case x := <-done:
 			ops = append(ops, o)
 			res = append(res, x)
@@ -287,7 +300,7 @@ func runSeq(run *vgen.Run, s seqCase, id int, kind string) {
 	for i := range ops {
 		opsT[i] = ops[i].gallina()
 		obsT[i] = "(" + zlit(res[i].K) + ", " + vgen.B(res[i].Blocked) + ", " + cellList(res[i].Got) + ")"
-		desc = append(desc, fmt.Sprintf("%s=%d", ops[i], res[i].K))
+		desc = append(desc, fmt.Sprintf("%s=%d%s", ops[i], res[i].K, gotStr(res[i].Got)))
 		if res[i].K > 0 {
 			transfers++
 		}
@@ -324,9 +337,57 @@ type histCase struct {
 	threads  [][]op
 	procs    int
 	hasClose bool
+	herd     bool
+}
+
+// genHerd: several callers wait on the same condition (readers on an empty
+// ring / writers on a full one), then one call of the other kind moves enough
+// entries for all of them: every waiter must be released (Broadcast, not Signal).
+func genHerd(r *vgen.Rand) histCase {
+	k := r.Range(2, 5)
+	h := histCase{c: r.Range(k, 8), full: r.Bool(), procs: vgen.Pick(r, 1, 2, 4, 0), herd: true}
+	next := uint64(1)
+	vals := func(n int) []uint64 {
+		var v []uint64
+		for j := 0; j < n; j++ {
+			v = append(v, next)
+			next++
+		}
+		return v
+	}
+	for i := 0; i < k; i++ {
+		o := op{Block: true, Spin: r.Intn(3)}
+		if h.full {
+			o.Kind = kWrite
+			o.Vals = vals(1)
+		} else {
+			o.Kind = kRead
+			o.N = 1
+		}
+		h.threads = append(h.threads, []op{o})
+	}
+	big := op{Block: r.Bool(), Spin: 100 + r.Intn(400)}
+	n := r.Range(k, h.c)
+	if h.full {
+		big.Kind = kRead
+		big.N = n
+	} else {
+		big.Kind = kWrite
+		big.Vals = vals(n)
+	}
+	last := []op{big}
+	if r.Bool() {
+		// something harmless afterwards
+		last = append(last, op{Kind: kRead, N: 0, Spin: r.Intn(3)})
+	}
+	h.threads = append(h.threads, last)
+	return h
 }
 
 func genHist(r *vgen.Rand) histCase {
+	if r.Chance(1, 4) {
+		return genHerd(r)
+	}
 	h := histCase{c: r.Range(1, 4), full: r.Chance(1, 5)}
 	if r.Chance(1, 4) {
 		h.c = r.Range(5, 16)
@@ -401,6 +462,7 @@ type violation struct {
 func runHist(h histCase) (recs []hrec, init []uint64, lateClose bool, viol *violation) {
 	r, init := newRing(h.c, h.full, "hist")
 	var ctr atomic.Uint64
+	var panics atomic.Pointer[string]
 	g := len(h.threads)
 	state := make([]atomic.Int32, g) // 0 between calls, 1 in a call, 2 finished
 	cur := make([]atomic.Int32, g)
@@ -413,13 +475,22 @@ func runHist(h histCase) (recs []hrec, init []uint64, lateClose bool, viol *viol
 			defer wg.Done()
 			<-start
 			for i, o := range h.threads[t] {
-				for s := 0; s < o.Spin; s++ {
-					runtime.Gosched()
+				if o.Spin >= 100 {
+					time.Sleep(time.Duration(o.Spin) * time.Microsecond)
+				} else {
+					for s := 0; s < o.Spin; s++ {
+						runtime.Gosched()
+					}
 				}
 				cur[t].Store(int32(i))
 				state[t].Store(1)
 				inv := ctr.Add(1)
-				x := apply(r, o)
+				var x result
+				if p, msg := vgen.Recover(func() { x = apply(r, o) }); p {
+					panics.Store(&msg)
+					state[t].Store(2)
+					return
+				}
 				ret := ctr.Add(1)
 				state[t].Store(0)
 				out[t] = append(out[t], hrec{O: o, R: x, Inv: inv, Ret: ret})
@@ -497,6 +568,11 @@ loop:
 			lateClose = true
 		}
 	}
+	if msg := panics.Load(); msg != nil && viol == nil {
+		viol = &violation{"panic in the ring buffer: " + *msg,
+			map[string]any{"cap": h.c, "threads": fmt.Sprint(h.threads)}, "panic"}
+		r.Close()
+	}
 	if viol != nil {
 		return nil, init, lateClose, viol
 	}
@@ -533,6 +609,7 @@ func emitHist(run *vgen.Run, h histCase, recs []hrec, init []uint64, lateClose b
 	run.Tally(fmt.Sprintf("hist:overlapping-pairs:%s", bucket(overlaps)))
 	run.Tally(fmt.Sprintf("hist:calls-that-waited:%s", bucket(blocked)))
 	run.Tally(fmt.Sprintf("hist:closed-by-watchdog:%v", lateClose))
+	run.Tally(fmt.Sprintf("hist:herd-scenario:%v", h.herd))
 	run.Add("history", vgen.App("RingLin.CHist", fmt.Sprintf("%d%%nat", h.c), initTerm(h.full, init), vgen.List(terms)),
 		strings.Join(desc, ";"), overlaps > 0 && transfers > 0,
 		map[string]any{"cap": h.c, "full": h.full, "gomaxprocs": h.procs, "history": desc,
@@ -606,22 +683,34 @@ func runPkt(run *vgen.Run, r *vgen.Rand, id int) {
 			pkt []byte
 		}
 		done := make(chan pres, 1)
+		pan := make(chan string, 1)
 		go func() {
-			switch o.Kind {
-			case kWrite:
-				b := make([]byte, 8)
-				binary.BigEndian.PutUint64(b, o.V)
-				done <- pres{k: pr.Write(b, o.Block)}
-			case kRead:
-				p, k := pr.Read(o.Block)
-				done <- pres{k: k, pkt: p}
-			default:
-				pr.Close()
-				done <- pres{}
+			var x pres
+			p, msg := vgen.Recover(func() {
+				switch o.Kind {
+				case kWrite:
+					b := make([]byte, 8)
+					binary.BigEndian.PutUint64(b, o.V)
+					x = pres{k: pr.Write(b, o.Block)}
+				case kRead:
+					p, k := pr.Read(o.Block)
+					x = pres{k: k, pkt: p}
+				default:
+					pr.Close()
+				}
+			})
+			if p {
+				pan <- msg
+				return
 			}
+			done <- x
 		}()
 		var x pres
 		select {
+		case msg := <-pan:
+			run.Violate(id, "panic in pktRing: "+msg, map[string]any{"ops": desc}, "panic")
+			hung = true
+			continue
 		case x = <-done:
 		case <-time.After(5 * time.Second):
 			run.Violate(id, "pktRing call blocked although it cannot block", map[string]any{"ops": desc}, "pkt-hang")
